@@ -248,8 +248,9 @@ pub fn step_head(cx: &mut Ctx, bytes: &[u8]) -> Step {
 
 pub fn rt_head(cx: &mut Ctx, rng: &mut Rng) {
     let h = HeadTable {
-        major_version: if rng.bool() { 1 } else { edge_u16(rng) },
-        minor_version: edge_u16(rng),
+        // the only version of the table (a reader may reject others)
+        major_version: 1,
+        minor_version: 0,
         font_revision: Fixed::from_raw(edge_u32(rng) as i32),
         check_sum_adjustment: edge_u32(rng),
         magic_number: 0x5F0F3CF5,
